@@ -13,6 +13,7 @@ package main
 var supportRules = map[string]func(*Report){
 	"handover-owners":               ruleHandoverOwners,
 	"errors-not-dropped":            ruleErrorsNotDropped,
+	"open-defaults":                 ruleOpenDefaults,
 	"scan-ends-at-eof":              ruleScanEndsAtEOF,
 	"gc-single-handover":            ruleGCSingleHandover,
 	"disk-read-fresh":               ruleDiskReadFresh,
